@@ -26,6 +26,9 @@ pub trait Skel {
     /// every non-structural byte symbolic; label characters symbolic within
     /// the alphabet the parser admits
     fn build<S: Src>(s: &mut S) -> Vec<u8>;
+    /// like `build`, and the 7 non-QR bits of the first flags byte symbolic
+    /// too (in `build`/`build_cl` that byte is concrete: QR as given, RD set)
+    fn build_fl<S: Src>(s: &mut S) -> Vec<u8>;
     /// same with concrete label characters (for harnesses that explore error
     /// paths: a symbolic label byte makes every later offset symbolic)
     fn build_cl<S: Src>(s: &mut S) -> Vec<u8>;
@@ -41,4 +44,16 @@ pub fn lab<S: Src>(s: &mut S) -> u8 {
 #[inline(always)]
 pub fn alpha<S: Src>(s: &mut S) -> u8 {
     s.alpha()
+}
+
+/// the skeleton's record table as oracle records
+pub fn recs_of<K: Skel>() -> ([spec::Rec; spec::MAX_RR], usize) {
+    let mut out = [spec::NOREC; spec::MAX_RR];
+    let mut i = 0;
+    while i < K::RECS.len() && i < spec::MAX_RR {
+        let r = &K::RECS[i];
+        out[i] = spec::Rec { start: r.start, name_end: r.name_end, rtype: r.rtype, rdlen: r.rdlen, next: r.next, section: r.section };
+        i += 1;
+    }
+    (out, i)
 }
